@@ -8,7 +8,8 @@ PROPERTY = 'C04'
 LEVEL = 'model_checking'
 ENGINE = 'E3'
 RULE = ('bounded-exhaustive: all |A|^N trace columns x all |L|^N label columns packed side by side, N=3..5 (quick) / ..6 (thorough), for class declarations {explicit exact, explicit with unused '
-        'classes, explicit with undeclared labels, automatic with first-batch maximum 8 / 63 / 255} x {ANOVA,NICV,SNR} x precisions x trace dtypes x kernel sequences {(1),(1,2),(1,1),(1,2,1)} '
+        'classes, explicit with negative class values on signed words (declared / partly undeclared, int8 edges), '
+        'explicit with undeclared labels, automatic with first-batch maximum 8 / 63 / 255} x {ANOVA,NICV,SNR} x precisions x trace dtypes x kernel sequences {(1),(1,2),(1,1),(1,2,1)} '
         'forced via the scripted clock; a case = one (configuration, trace column, label column); non-trivial = the exact reference says the statistic is defined')
 ASSUMPTIONS = ['numpy/numba are trusted', 'tolerance 2^-12 / 2^-36 relative to max(|ref|, smallest non-zero |ref| of the configuration)', 'N<=6 rows, 3-4 letter alphabets (small scope)',
                'automatic class sets are exercised with first-batch maxima 8, 63, 255 here; the thresholds themselves (0, 9, 64) belong to C12']
@@ -39,6 +40,8 @@ def _configs(tier):
         out.append(('explicit-unused', n, A, [0, 1, 3][:la], [0, 1, 2, 3, 4, 6], seqs[:2]))
         out.append(('explicit-undeclared', n, A, [0, 1, 2, 7][:la], [0, 1, 2], seqs[:3]))
         out.append(('explicit-unordered-gaps', n, A, [1, 4, 9, 300][:la], [300, 4, 1], seqs[:2]))
+        out.append(('explicit-negative', n, A, [-3, -1, 0, 2][:la], [-3, -1, 0, 2][:la], seqs[:3]))            # signed intermediate words with declared negative class values
+        out.append(('explicit-negative-undeclared', n, A, [-128, -2, 1, 127][:la] if la == 4 else [-128, -2, 127], [127, -128, 1], seqs[:2]))
         out.append(('auto-9', n, A, [0, 1, 2, 8][:la] if la == 4 else [0, 2, 8], None, seqs[:3]))
         if n <= 4 or tier == 'thorough' and n <= 4:
             out.append(('auto-64', n, A, [0, 1, 10, 63], None, [(1,), (1, 1)]))
@@ -85,8 +88,11 @@ def run_shard(shard, ctx):
         ref, defined = stats.partitioned_ref_matrix(X, Y, classes, which)
         nz = np.abs(ref[defined])
         floor = float(nz[nz > 0].min()) if (nz > 0).any() else 1.0
-        ddts = ['uint8'] if max(L) < 256 else ['uint16']
-        if tier == 'thorough': ddts = ddts + (['int16', 'uint32'] if max(L) < 32768 else ['int32'])
+        if min(L) < 0:
+            ddts = ['int8'] + (['int16', 'int32'] if tier == 'thorough' else [])
+        else:
+            ddts = ['uint8'] if max(L) < 256 else ['uint16']
+            if tier == 'thorough': ddts = ddts + (['int16', 'uint32'] if max(L) < 32768 else ['int32'])
         for ddt in ddts:
             for seq in seqs:
                 if len(seq) > n: continue
